@@ -151,6 +151,10 @@ func (g *G) kdCase(dim int) int {
 	// distances below 1 occur, where d and d*d are ordered the other way round than above 1 (a
 	// squared/unsquared mix-up in a pruning test is invisible on integer clouds).
 	sc := g.pickF([]float64{1, 1, 0.5, 0.25, 0.25})
+	if g.p(0.15) { // the same scenes far below / above unit size (exact: powers of two)
+		sc *= g.sceneScaleFar()
+		g.Stat(kind+" trees far from unit scale", 1)
+	}
 	mode := g.Rng.Intn(8) // 0: all identical, 1: collinear along an axis, else: small integer cloud
 	line := g.Rng.Intn(dim)
 	for i := range pts {
@@ -206,7 +210,7 @@ func (g *G) kdCase(dim int) int {
 		}
 		emit(op, impl)
 		g.Stat(kind+" trees", 1)
-		if sc < 1 {
+		if sc < 1 && sc >= 0.25 {
 			g.Stat(kind+" trees on a sub-unit grid", 1)
 		}
 		if n == 0 {
